@@ -20,15 +20,15 @@ def psum(W, k):
     return 0 if k <= 0 else psum(W, k - 1) + W[k - 1]
 
 
-def psum_prefix(reg):
+def psum_prefix(reg, twin=False):
     """Prefix sums depend only on the prefix (checked in Lean: lemmas/psum_prefix.lean)."""
     sp = reg.specs["psum"]
-    if getattr(sp, "z3fn", None) is None:
+    if getattr(sp, "z3fn", None) is None or (twin and getattr(sp, "twin", None) is None):
         return None
     A = z3.ArraySort(z3.IntSort(), z3.IntSort())
     W1, W2 = z3.Consts("pp_W1 pp_W2", A)
     k, j = z3.Ints("pp_k pp_j")
-    f = sp.z3fn
+    f = sp.twin if twin else sp.z3fn
     return z3.ForAll([W1, W2, k], z3.Implies(z3.ForAll([j], z3.Implies(z3.And(0 <= j, j < k), W1[j] == W2[j])),
                                             f(W1, k) == f(W2, k)),
                      patterns=[z3.MultiPattern(f(W1, k), f(W2, k))])
